@@ -287,6 +287,10 @@ def main():
         sys.exit(do_replay(a.replay))
     if a.prop not in PROPS:
         print('unknown property', a.prop); sys.exit(2)
+    if a.unit and 'VERIF_OUT' not in os.environ:
+        # developer run of single units: never overwrite the property's evidence file with a partial run
+        global OUT
+        OUT = os.path.join(vlib.GEN, 'unit_out')
     rc = run_property(a.prop, a.tier, seed, only_units=a.unit)
     sys.exit(rc)
 
